@@ -734,6 +734,9 @@ func validateFieldMapping(predecessorType reflect.Type, successorType reflect.Ty
 			return nil, fmt.Errorf("static check failed for mapping %s, the successor has intermediate interface type %v", mapping, successorFieldType)
 		}
 
+		// the checkers below outlive this iteration: they must not capture the variables shared by all iterations
+		mapping, successorFieldType := mapping, successorFieldType
+
 		if predecessorIntermediateInterface {
 			checker := func(a any) (any, error) {
 				trueInType := reflect.TypeOf(a)
